@@ -101,7 +101,14 @@ func svc(id string) []interface{} {
 	return []interface{}{AddServicePatch(id, "https://example.com/"+id)}
 }
 
-var failingPatch = []interface{}{JSONPatch(JOp("remove", "/absent", nil))}
+// failingPatch is a valid delta whose application fails only at its last patch: the patches before it (a key, a service, an
+// alias - the in-place kinds) apply first, so a result that keeps their effect is visible as a changed document.
+var failingPatch = []interface{}{
+	map[string]interface{}{"action": "add-public-keys", "publicKeys": []interface{}{KeyEntry("partial", NewKey(P256, "pool/partial"), []interface{}{"authentication"})}},
+	AddServicePatch("partial", "https://example.com/partial"),
+	map[string]interface{}{"action": "add-also-known-as", "uris": []interface{}{"https://partial.example"}},
+	JSONPatch(JOp("remove", "/absent", nil)),
+}
 var invalidPatch = []interface{}{map[string]interface{}{"action": "add-public-keys", "publicKeys": []interface{}{
 	map[string]interface{}{"id": "bad id!", "type": "JsonWebKey2020", "publicKeyJwk": map[string]interface{}{"kty": "OKP", "crv": "Ed25519", "x": "AA"}}}}}
 
